@@ -131,6 +131,9 @@ def run_queries(m, case, dominant_bpm, scroll_speed, sv_normalize):
             if f is sv_normalize and "svs" not in m.objs:
                 continue
             try:
-                f(*a)
+                if len(a) == 2 and case["override"] is not None and int(case["override"] * 1000) % 2:
+                    f(a[0], override_bpm=a[1])  # the keyword form of the same call
+                else:
+                    f(*a)
             except Exception:
                 pass
